@@ -1,5 +1,6 @@
 // Kani harnesses for src/ttl.rs `Time` (std::time is outside Verus' reach). The OS clock is stubbed by a
-// settable value, so every (t0, t1 >= t0, d) with seconds below 2^40 is covered symbolically (loop-free).
+// settable value, so every (t0, t1 >= t0) with seconds below 2^40 and EVERY Duration d (up to Duration::MAX) is covered
+// symbolically (loop-free); arithmetic overflow panics are checked by Kani on the way.
 use super::*;
 
 static mut NOW_S: u64 = 0;
@@ -21,15 +22,22 @@ fn any_instant() -> (u64, u32) {
     kani::assume(s < LIM && n < 1_000_000_000);
     (s, n)
 }
+/// any TTL a caller can pass: every Duration, Duration::MAX included
+fn any_ttl() -> (u64, u32) {
+    let s: u64 = kani::any();
+    let n: u32 = kani::any();
+    kani::assume(n < 1_000_000_000);
+    (s, n)
+}
 
-//@harness time_expiry_exact props=C03,C05 target=Time::is_expired bounded=no claim=for all t0 <= t1 and every TTL d > 0 (seconds < 2^40): a Time created at t0 with TTL d reports is_expired() at t1 iff t1 - t0 >= d, and is_zero() is false
+//@harness time_expiry_exact props=C03,C04,C05 target=Time::is_expired bounded=no claim=for all t0 <= t1 and every TTL d > 0 up to Duration::MAX: a Time created at t0 with TTL d reports is_expired() at t1 iff t1 - t0 >= d, and is_zero() is false
 #[kani::proof]
 #[kani::stub(std::time::SystemTime::now, fake_now)]
 #[kani::unwind(3)]
 fn time_expiry_exact() {
     let (s0, n0) = any_instant();
     let (s1, n1) = any_instant();
-    let (ds, dn) = any_instant();
+    let (ds, dn) = any_ttl();
     kani::assume((s1, n1) >= (s0, n0));
     kani::assume(ds > 0 || dn > 0);
     set_now(s0, n0);
@@ -43,14 +51,14 @@ fn time_expiry_exact() {
     assert!(!t.is_zero());
 }
 
-//@harness time_ttl_remaining props=C03 target=Time::get_ttl bounded=no claim=for all t0 <= t1, d > 0: get_ttl() at t1 is d - (t1 - t0) while that is positive and Duration::ZERO afterwards (so it is at most d and never increases)
+//@harness time_ttl_remaining props=C03,C04,C05 target=Time::get_ttl bounded=no claim=for all t0 <= t1, d > 0: get_ttl() at t1 is d - (t1 - t0) while that is positive and Duration::ZERO afterwards (so it is at most d and never increases)
 #[kani::proof]
 #[kani::stub(std::time::SystemTime::now, fake_now)]
 #[kani::unwind(3)]
 fn time_ttl_remaining() {
     let (s0, n0) = any_instant();
     let (s1, n1) = any_instant();
-    let (ds, dn) = any_instant();
+    let (ds, dn) = any_ttl();
     kani::assume((s1, n1) >= (s0, n0));
     kani::assume(ds > 0 || dn > 0);
     set_now(s0, n0);
@@ -68,7 +76,7 @@ fn time_ttl_remaining() {
     }
 }
 
-//@harness time_without_ttl_never_expires props=C03,C04 target=Time::now bounded=no claim=a Time created by Time::now() (no TTL) is is_zero() at every later instant and reports get_ttl() == Duration::MAX; is_zero() <=> d == 0 for now_with_expiration(d)
+//@harness time_without_ttl_never_expires props=C03,C04,C05 target=Time::now bounded=no claim=a Time created by Time::now() (no TTL) is is_zero() at every later instant and reports get_ttl() == Duration::MAX; is_zero() <=> d == 0 for now_with_expiration(d)
 #[kani::proof]
 #[kani::stub(std::time::SystemTime::now, fake_now)]
 #[kani::unwind(3)]
@@ -78,7 +86,7 @@ fn time_without_ttl_never_expires() {
     kani::assume((s1, n1) >= (s0, n0));
     set_now(s0, n0);
     let t = Time::now();
-    let (ds, dn) = any_instant();
+    let (ds, dn) = any_ttl();
     let u = Time::now_with_expiration(Duration::new(ds, dn));
     set_now(s1, n1);
     assert!(t.is_zero());
@@ -86,30 +94,35 @@ fn time_without_ttl_never_expires() {
     assert!(u.is_zero() == (ds == 0 && dn == 0));
 }
 
-//@harness time_deadline_second props=C05,C03 target=Time::unix bounded=no claim=unix() is the whole second of created_at + d: s0 + ds + carry(n0 + dn >= 10^9); storage_bucket is that + 1 and cleanup_bucket(now) is the current second
+//@harness time_deadline_second props=C03,C04,C05 target=Time::unix bounded=no claim=for every Duration d: unix() is the whole second of created_at + d, s0 + ds + carry(n0 + dn >= 10^9), saturating at u64::MAX without panicking; storage_bucket is that + 1 saturating at i64::MAX; cleanup_bucket(now) is the current second
 #[kani::proof]
 #[kani::stub(std::time::SystemTime::now, fake_now)]
 #[kani::unwind(3)]
 fn time_deadline_second() {
     let (s0, n0) = any_instant();
-    let (ds, dn) = any_instant();
+    let (ds, dn) = any_ttl();
     set_now(s0, n0);
     let t = Time::now_with_expiration(Duration::new(ds, dn));
-    let carry = if n0 as u64 + dn as u64 >= 1_000_000_000 { 1 } else { 0 };
-    assert!(t.unix() == s0 + ds + carry);
-    assert!(storage_bucket(t) == (s0 + ds + carry + 1) as i64);
+    let carry: u128 = if n0 as u64 + dn as u64 >= 1_000_000_000 { 1 } else { 0 };
+    let deadline: u128 = s0 as u128 + ds as u128 + carry;
+    // the deadline second, saturating at u64::MAX; its bucket is the next second, saturating at i64::MAX (never due)
+    let want_unix: u64 = if deadline > u64::MAX as u128 { u64::MAX } else { deadline as u64 };
+    let want_bucket: i64 = if want_unix as u128 + 1 > i64::MAX as u128 { i64::MAX } else { (want_unix + 1) as i64 };
+    kani::cover!(deadline > u64::MAX as u128, "saturating deadline reachable");
+    assert!(t.unix() == want_unix);
+    assert!(storage_bucket(t) == want_bucket);
     let now = Time::now();
     assert!(cleanup_bucket(now) == s0 as i64);
 }
 
-//@harness time_due_bucket_implies_expired props=C05,C04 target=Time::is_expired bounded=no claim=(the axiom assumed in prelude/time_model.rs) if the storage bucket of a TTL deadline (deadline second + 1) is not after the current second then the entry is expired at that instant; so every entry found in a due bucket under its own deadline is really expired
+//@harness time_due_bucket_implies_expired props=C03,C04,C05 target=Time::is_expired bounded=no claim=(the axiom assumed in prelude/time_model.rs) if the storage bucket of a TTL deadline (deadline second + 1) is not after the current second then the entry is expired at that instant; so every entry found in a due bucket under its own deadline is really expired
 #[kani::proof]
 #[kani::stub(std::time::SystemTime::now, fake_now)]
 #[kani::unwind(3)]
 fn time_due_bucket_implies_expired() {
     let (s0, n0) = any_instant();
     let (s1, n1) = any_instant();
-    let (ds, dn) = any_instant();
+    let (ds, dn) = any_ttl();
     kani::assume((s1, n1) >= (s0, n0));
     kani::assume(ds > 0 || dn > 0);
     set_now(s0, n0);
